@@ -1,4 +1,131 @@
-/- C09 — placeholder while the check is being built (replaced below). -/
-import Octave.Model.Validator
+/-
+C09 — Validity is invariant under respelling; validating never alters content.
+
+Property theorems over the executable model `Model/Validator` (tied to validator.py by the
+correspondence of tools/props/c09.py) and over the stage skeleton of `ValidateTool.execute`
+regenerated from the source (`Gen/Tools`, interpreted by `Model/Tools`).
+`content d` erases everything that is spelling: line / column / comments of every node, the token
+slices inside list values, the document's trailing comments.  A verdict is `(code, field path)`.
+
+Not here: that every lenient respelling of a text *parses* to a document with the same content —
+that is the reader's master theorem (DESIGN §6.3, engine `text`); C09's own part is the validator.
+-/
+import Octave.Lemmas.Validator
+import Octave.Spec.AsciiEnv
+import Octave.Gen.ReadOnly
 namespace Octave.C09
+open Octave Validator Lemmas
+
+/-- The list of verdicts (hence the verdict *set* and the validation status computed from it) is a
+function of document content: two documents with the same content receive the same verdicts, for
+every schema map, strictness, constraint environment — any depth, any size.
+`hmeta`: the old-style dict check `_validate_meta` (abstract in this engine) reads keys and values only. -/
+theorem C09_congr (ve : VEnv)
+    (hmeta : ∀ m strict, ve.metaErrors (Doc.erasePairs m) strict = ve.metaErrors m strict)
+    (d₁ d₂ : Doc) (strict : Bool) (ss : Option (List (Str × Schema)))
+    (h : d₁.content = d₂.content) :
+    validate ve d₁ strict ss = validate ve d₂ strict ss := by
+  rw [← validate_content ve hmeta d₁ strict ss, ← validate_content ve hmeta d₂ strict ss, h]
+
+/-- … in particular for the document and its own content-normal form. -/
+theorem C09_content_normal (ve : VEnv)
+    (hmeta : ∀ m strict, ve.metaErrors (Doc.erasePairs m) strict = ve.metaErrors m strict)
+    (d : Doc) (strict : Bool) (ss : Option (List (Str × Schema))) :
+    validate ve d.content strict ss = validate ve d strict ss :=
+  validate_content ve hmeta d strict ss
+
+/-- Section validation alone needs no hypothesis at all. -/
+theorem C09_section_congr (ve : VEnv) (bt : List (Str × Str)) (s₁ s₂ : Node) (sch : Option Schema)
+    (h : s₁.erase = s₂.erase) : validateSection ve bt s₁ sch = validateSection ve bt s₂ sch := by
+  rw [← validateSection_erase ve bt s₁ sch, ← validateSection_erase ve bt s₂ sch, h]
+
+/-- `_to_python_value` converts AST values without loss: two AST values are handed to the constraint
+evaluator as the same Python value exactly when they have the same content (so the evaluator can
+tell apart precisely what content tells apart: kind, text, number, nesting — never spelling). -/
+theorem C09_to_python_lossless (v w : Val) : v.toPy = w.toPy ↔ v.erase = w.erase := by
+  constructor
+  · exact toPy_inj v w
+  · intro h
+    rw [← toPy_erase v, ← toPy_erase w, h]
+
+/-- Kind preservation: a text stays a text, a number a number (TYPE / CONST / RANGE see what the
+document says). -/
+theorem C09_to_python_kind (v : Val) :
+    (∀ s, v = .str s ↔ v.toPy = .str s) ∧ (∀ i, v = .int i ↔ v.toPy = .int i) ∧ (∀ b, v = .bool b ↔ v.toPy = .bool b) ∧
+    (v = .null ↔ v.toPy = .null) := by
+  cases v <;> simp [Val.toPy]
+
+/-! ## read-only -/
+
+/-- Generic: any tool whose stages between `parse` and `emit` only read the document, or repair it
+under a guard that includes `fix`, returns with fix off exactly `emit (parse input)`, logs nothing,
+and hands `emit` the parsed document itself. -/
+theorem C09_readonly_generic (P : Tools.Params) (f : Tools.Flags) (content : Str) (prog : List Tools.Stage)
+    (hd : Tools.readOnlyUnlessFix prog = true) (hf : f.fix = false) :
+    (Tools.exec P f content prog {}).canonical = (P.parse content).map P.emit ∧
+    (Tools.exec P f content prog {}).log = [] ∧
+    (Tools.exec P f content prog {}).doc = P.parse content := by
+  cases prog with
+  | nil => simp [Tools.readOnlyUnlessFix] at hd
+  | cons st rest =>
+    cases st with
+    | parse =>
+      simp only [Tools.readOnlyUnlessFix] at hd
+      simp only [Tools.exec, Tools.step]
+      exact exec_middle P f content hf rest _ hd rfl
+    | _ => simp [Tools.readOnlyUnlessFix] at hd
+
+/-- `ValidateTool.execute` as it is written today has that shape (regenerated from mcp/validate.py on
+every run: dropping the `if fix:` around `repair(...)`, or a new statement touching `doc`, breaks this). -/
+theorem gen_validate_discipline : Tools.readOnlyUnlessFix Tools.validateToolProg = true := by decide
+
+/-- With fix off the canonical text `octave_validate` returns equals plain canonicalisation of the
+input (`emit(parse(input))`), and no schema repair is logged. -/
+theorem C09_readonly (P : Tools.Params) (f : Tools.Flags) (content : Str) (hf : f.fix = false) :
+    (Tools.exec P f content Tools.validateToolProg {}).canonical = (P.parse content).map P.emit ∧
+    (Tools.exec P f content Tools.validateToolProg {}).log = [] :=
+  let h := C09_readonly_generic P f content Tools.validateToolProg gen_validate_discipline hf
+  ⟨h.1, h.2.1⟩
+
+/-- Static read-only scan of the validator (regenerated): the only store whose root may be document
+data is the accumulator dict that `extract_block_targets` creates and passes down. -/
+theorem gen_validator_readonly :
+    (Gen.validatorStores.filter (fun r => r.2.2.2.2)).map (fun r => (r.1, r.2.2.1)) =
+      [("_extract_targets_recursive", "targets[path_str]")] := by decide
+
+/-- every callee the skeleton treats as read-only is one the scan covers. -/
+theorem gen_readonly_callees : Tools.readOnlyCallees =
+    ["_count_literal_zones", "validator.validate", "validator_for_repair.validate"] := by decide
+
+/-! ## non-vacuity -/
+
+def exSchema : Schema := { name := "S".toList, unknownFields := "WARN".toList, fields := [
+  ("STATUS".toList, ⟨some ⟨some ⟨[.req, .enum ["ACTIVE".toList, "DONE".toList]], 0⟩, some "NOPE".toList⟩⟩),
+  ("COUNT".toList, ⟨some ⟨some ⟨[.opt, .type "NUMBER".toList], 0⟩, none⟩⟩),
+  ("NAME".toList, ⟨some ⟨some ⟨[.req], 0⟩, none⟩⟩)] }
+
+def exVEnv : VEnv := { env := Spec.asciiEnv, ce := Spec.plainCEnv, metaErrors := fun _ _ => [], fmErrors := fun _ _ => [] }
+
+/-- one spelling … -/
+def exDoc₁ : Doc := { name := "DOC".toList, sections := [
+  .block ⟨3, 1, ["// c".toList], none⟩ "S".toList none [
+    .assign ⟨4, 3, [], some "t".toList⟩ "STATUS".toList (.str "active".toList),
+    .assign ⟨5, 3, [], none⟩ "COUNT".toList (.list [.str "a".toList] [5, 9, 5, 10]),
+    .assign ⟨6, 3, [], none⟩ "ZED".toList (.int 1)]] }
+/-- … and another spelling of the same content. -/
+def exDoc₂ : Doc := { name := "DOC".toList, trailingComments := ["x".toList], sections := [
+  .block ⟨7, 1, [], none⟩ "S".toList none [
+    .assign ⟨9, 5, [], none⟩ "STATUS".toList (.str "active".toList),
+    .assign ⟨11, 5, [], none⟩ "COUNT".toList (.list [.str "a".toList] [11, 14, 12, 9]),
+    .assign ⟨13, 5, [], none⟩ "ZED".toList (.int 1)]] }
+
+example : exDoc₁.content = exDoc₂.content := by rfl
+example : validate exVEnv exDoc₁ false (some [("S".toList, exSchema)]) =
+    [("W001", "S.ZED".toList), ("E005", "S.STATUS".toList), ("E009", "S.STATUS".toList), ("E007", "S.COUNT".toList), ("E003", "S.NAME".toList)] := by decide
+example : validate exVEnv exDoc₂ false (some [("S".toList, exSchema)]) = validate exVEnv exDoc₁ false (some [("S".toList, exSchema)]) := by decide
+example : ∀ m strict, exVEnv.metaErrors (Doc.erasePairs m) strict = exVEnv.metaErrors m strict := fun _ _ => rfl
+/-- an instance of the discipline's hypothesis and a program that violates it. -/
+example : Tools.readOnlyUnlessFix [.parse, .readOnly "x", .repair ["fix", "other"], .emit] = true := by decide
+example : Tools.readOnlyUnlessFix [.parse, .repair [], .emit] = false := by decide
+
 end Octave.C09
